@@ -109,23 +109,25 @@ theorem C02_error_span (source : Str) :
 
 /-! ## Bindings of the regex features -/
 
-/-- **C02 (binding span).** Every binding `get_bindings` yields carries, as start and end, the line
-numbers of two captured `POS` in capture order: the same `POS` twice when positions and suffixes
-are paired, the first and the last `POS` otherwise; its path is that of the first of the two. -/
+/-- **C02 (binding span).** Every binding `get_bindings` yields carries, as start and end, the
+ORDERED pair of the line numbers of two captured `POS`: the same `POS` twice when positions and
+suffixes are paired, the first and the last `POS` otherwise (start = the smaller line, end = the
+larger one, since 44b0b15: the last capture follows the first in the flat AST, not necessarily in
+the source); its path is that of the first of the two. -/
 theorem C02_binding_span (label pos0 : Str) (posRest suffix : List Str) (occs : List Occ)
     (h : getBindings label pos0 posRest suffix = .ok occs) :
-    ∀ o ∈ occs,
-      (∃ q ∈ pos0 :: posRest, parsePos q = .ok (o.2.1, o.2.2.2) ∧ o.2.2.1 = o.2.1) ∨
-      (parsePos pos0 = .ok (o.2.1, o.2.2.2) ∧
-        ∃ path, parsePos ((pos0 :: posRest).getLast (by simp)) = .ok (o.2.2.1, path)) := by
-  have hspan : ∀ a b sp, posToSpan a b = .ok sp →
-      parsePos a = .ok (sp.1, sp.2.2) ∧ ∃ path, parsePos b = .ok (sp.2.1, path) := by
+    ∀ o ∈ occs, ∃ s e : Nat, o.2.1 = min s e ∧ o.2.2.1 = max s e ∧
+      ((∃ q ∈ pos0 :: posRest, parsePos q = .ok (s, o.2.2.2) ∧ e = s) ∨
+       (parsePos pos0 = .ok (s, o.2.2.2) ∧
+        ∃ path, parsePos ((pos0 :: posRest).getLast (by simp)) = .ok (e, path))) := by
+  have hspan : ∀ a b sp, posToSpan a b = .ok sp → ∃ s e path, sp = (min s e, max s e, sp.2.2) ∧
+      parsePos a = .ok (s, sp.2.2) ∧ parsePos b = .ok (e, path) := by
     intro a b sp hsp
     unfold posToSpan at hsp
     split at hsp
     · rename_i s path e pe h1 h2
       cases hsp
-      exact ⟨h1, pe, h2⟩
+      exact ⟨s, e, pe, rfl, h1, h2⟩
     · cases hsp
   unfold getBindings at h
   simp only at h
@@ -139,13 +141,12 @@ theorem C02_binding_span (label pos0 : Str) (posRest suffix : List Str) (occs : 
       intro o ho
       simp only [List.mem_singleton] at ho
       subst ho
-      exact Or.inr (hspan _ _ sp hsp)
+      obtain ⟨s, e, path, hsp', h1, h2⟩ := hspan _ _ sp hsp
+      exact ⟨s, e, by rw [hsp'], by rw [hsp'], Or.inr ⟨h1, path, h2⟩⟩
   · split at h
     · -- paired
-      intro o ho
-      left
       have key : ∀ (l : List (Str × Str)) (out : List Occ), pairBindings label l = .ok out →
-          ∀ o ∈ out, ∃ x ∈ l, parsePos x.2 = .ok (o.2.1, o.2.2.2) ∧ o.2.2.1 = o.2.1 := by
+          ∀ o ∈ out, ∃ x ∈ l, ∃ s : Nat, parsePos x.2 = .ok (s, o.2.2.2) ∧ o.2.1 = s ∧ o.2.2.1 = s := by
         intro l
         induction l with
         | nil => intro out hout o ho; simp only [pairBindings, Except.ok.injEq] at hout; subst hout; simp at ho
@@ -162,15 +163,18 @@ theorem C02_binding_span (label pos0 : Str) (posRest suffix : List Str) (occs : 
               simp only [Except.ok.injEq] at hout
               subst hout
               rcases List.mem_cons.mp ho with rfl | ho
-              · obtain ⟨h1, path, h2⟩ := hspan _ _ sp hx
-                refine ⟨(sfx, q), by simp, h1, ?_⟩
+              · obtain ⟨s, e, path, hsp', h1, h2⟩ := hspan _ _ sp hx
                 rw [h1] at h2
                 simp only [Except.ok.injEq, Prod.mk.injEq] at h2
-                exact h2.1.symm
+                obtain ⟨rfl, _⟩ := h2
+                refine ⟨(sfx, q), by simp, s, h1, ?_, ?_⟩
+                · show sp.1 = s; rw [hsp']; simp
+                · show sp.2.1 = s; rw [hsp']; simp
               · obtain ⟨y, hy, hy2⟩ := ih rest hrest o ho
                 exact ⟨y, List.mem_cons_of_mem _ hy, hy2⟩
-      obtain ⟨x, hx, hx2⟩ := key _ occs h o ho
-      exact ⟨x.2, (List.of_mem_zip hx).2, hx2⟩
+      intro o ho
+      obtain ⟨x, hx, s, hp, hs1, hs2⟩ := key _ occs h o ho
+      exact ⟨s, s, by simpa using hs1, by simpa using hs2, Or.inl ⟨x.2, (List.of_mem_zip hx).2, hp, rfl⟩⟩
     · -- one span for all the suffixes
       split at h
       · cases h
@@ -180,7 +184,21 @@ theorem C02_binding_span (label pos0 : Str) (posRest suffix : List Str) (occs : 
         intro o ho
         simp only [List.mem_map] at ho
         obtain ⟨sfx, _, rfl⟩ := ho
-        exact Or.inr (hspan _ _ sp hsp)
+        obtain ⟨s, e, path, hsp', h1, h2⟩ := hspan _ _ sp hsp
+        exact ⟨s, e, by show sp.1 = _; rw [hsp'], by show sp.2.1 = _; rw [hsp'], Or.inr ⟨h1, path, h2⟩⟩
+
+/-- **C02 (binding ordered).** Every binding `get_bindings` yields has `start ≤ end`, whatever the
+captures (no hypothesis on the order of the captured lines is needed any more). -/
+theorem C02_binding_ordered (label pos0 : Str) (posRest suffix : List Str) (occs : List Occ)
+    (h : getBindings label pos0 posRest suffix = .ok occs) : ∀ o ∈ occs, o.2.1 ≤ o.2.2.1 := by
+  intro o ho
+  obtain ⟨s, e, h1, h2, _⟩ := C02_binding_span label pos0 posRest suffix occs h o ho
+  rw [h1, h2]; omega
+
+/-- The capture order of finding F41 (`def f(a=1,\n *b,\n c=2)`: the default of the first parameter is
+listed after the vararg): lines 2 then 1 give the span 1–2. -/
+example : getBindings "node:arguments".toList "2:1-".toList ["1:1-0-".toList] [] =
+    .ok [("node:arguments".toList, (1, 2, "1-".toList))] := by decide
 
 /-- Non-vacuity: the `for` example of the docstring of `get_bindings`. -/
 example : getBindings "for".toList "1:1-".toList ["1:1-0-0-1-".toList, "1:1-0-0-2-".toList, "2:1-2-1-".toList]
